@@ -21,7 +21,9 @@ RULE = (
 RULE += (
     " 30% of the bodies hold a context (an AsyncContext subclass or a scoped-value override) across a span of "
     "operations - entered at one step, left several awaits and Values later: resume/pause must alternate and "
-    "the scoped value be restored."
+    "the scoped value be restored. Unit midstep: a sibling task tries to advance the generator while the "
+    "handed-out task is suspended at a later await of its step: RuntimeError every time, the body receives "
+    "what it awaited."
 )
 ASSUMPTIONS = ["generator bodies are deterministic and side-effect free apart from the operation counter"]
 UNIT_TIMEOUT = {"quick": 200, "thorough": 2400}
